@@ -87,6 +87,16 @@ func (o *c07Oracle) after(ch *chain, ci *callInfo) *Violation {
 			}
 		}
 	}
+	if ci.Kind == "tx" && ci.Built != nil && ci.Before != nil {
+		if m, ok := ci.Built.Msg.(MsgTestBurn); ok && ci.Deliver.Code != 0 {
+			// a foreign module's burn request for a stored validator must be accepted (it is applied at the next BeginBlock)
+			feeAddr := authtypes.NewModuleAddress(authtypes.FeeCollectorName)
+			antePassed := ci.After.coinsOf(feeAddr).GT(ci.Before.coinsOf(feeAddr))
+			if _, exists := ci.Before.Vals[hex.EncodeToString(m.Target)]; exists && antePassed && !m.Severity.IsNegative() {
+				return violf("C07/burn-request-fails", "%s: Keeper.BurnValidator(%s, %s) for a stored validator failed: code %d %s", where, m.Target, m.Severity, ci.Deliver.Code, firstLines(ci.Deliver.Log, 4))
+			}
+		}
+	}
 	if ci.Kind != "begin" {
 		return nil
 	}
